@@ -279,6 +279,7 @@ func TestC08(t *testing.T) {
 			})
 		}
 	}
+	runAnnounceSched(t, rep, env)
 	rep.Add(evals, nontrivial, int64(len(states)), transitions)
 	if err := rep.Finish(env); err != nil {
 		t.Fatal(err)
@@ -291,7 +292,7 @@ type captures struct {
 	// (same origin, same timestamp, different body and origin signature).
 	a1     parsed
 	hasA1  bool
-	honest     map[string]bool
+	honest map[string]bool
 }
 
 // produce builds the world and lets the honest announcements propagate to R's link.
